@@ -4,6 +4,8 @@
 #include <time.h>
 
 #include "aws_sign.h"
+#include "hexify.h"
+#include "sha256.h"
 
 #include "shim.h"
 
@@ -103,4 +105,36 @@ shim_dynamodb_headers(const char * key_id, const char * secret,
 
 	return (aws_sign_dynamodb_headers(key_id, secret, region, op, body,
 	    bodylen, sha, date, auth));
+}
+
+/*
+ * What the process did with the helper modules aws_sign.c shares with other code (util/hexify.c, alg/sha256.c) before
+ * it signed anything: 1 parsed hex, 2 printed hex, 3 hashed, 4 computed an HMAC, 5 parsed hex that is not hex.
+ */
+void
+shim_prior_use(int kind)
+{
+	uint8_t buf[32];
+	char hex[65];
+
+	switch (kind) {
+	case 1:
+		(void)unhexify("00ffA5", buf, 3);
+		break;
+	case 2:
+		buf[0] = 0x5a;
+		hexify(buf, hex, 1);
+		break;
+	case 3:
+		SHA256_Buf("abc", 3, buf);
+		break;
+	case 4:
+		HMAC_SHA256_Buf("key", 3, "abc", 3, buf);
+		break;
+	case 5:
+		(void)unhexify("zz", buf, 1);
+		break;
+	default:
+		break;
+	}
 }
